@@ -16,7 +16,7 @@ CHECKS = {
     "C03": ("exploration", "runtime monitor: independent digest recomputation (iff oracle) over tag subsets and bit flips",
             "verify_digests() is compared with a verdict recomputed from the input bytes by an independent decoder for every subset of digest tags x right/wrong values, unsupported/unknown payload digest algorithms and every single-bit flip of small packages.",
             "sha2/sha1/md-5 crates; independent decoder"),
-    "C04": ("exploration", "process-level monitors: panic hook, counting allocator with budget, exit status, watchdog; verifdbg overflow checks; Miri/valgrind replays in the thorough tier",
+    "C04": ("exploration", "process-level monitors: panic hook, counting allocator with budget, exit status, watchdog; verifdbg overflow checks; valgrind/ASan/Miri replays in the thorough tier",
             "Hostile inputs (boundary products, every truncation, byte mutations, structure-aware mutation storms, hostile cpio) are parsed and then driven through every read-side operation inside worker processes that turn panics, aborts, oversized allocations and hangs into events. Both release and overflow-checking builds are run.",
             "allocation budget 4 MiB + 256 x input; watchdog firing is inconclusive unless confirmed on an idle re-run"),
     "C05": ("exploration", "runtime monitor: independent header decoder vs every accessor",
@@ -35,7 +35,7 @@ CHECKS = {
             "Every package emitted by build/sign/clear is checked by a validator written from rpm's header-loading rules; the validator must first accept rpmbuild's own packages.",
             "validator rules follow rpm's hdrblobVerify* logic as documented in DESIGN.md"),
     "C10": ("exploration", "runtime monitor: sequential model of the signing history checked after every step",
-            "All operation sequences up to a bound over {sign with 4 keys, clear, write+parse} from built and foreign packages; after every step all keys are tried, key ids, digests and header/payload identity are compared with a 3-line model.",
+            "All operation sequences up to a bound (3 quick / 4-5 thorough) over {sign with 4 keys, clear, write+parse, failing sign attempt} from built packages, random histories (5 keys) from built and foreign packages; after every step all keys are tried, key ids, digests and header/payload identity are compared with a 3-line model.",
             "test keys from the repository; pgp crate derives key ids"),
     "C11": ("exploration", "runtime monitor: byte identity across repeated builds and fresh processes + timestamp bound",
             "Configurations with several non-root owners are built repeatedly in-process and in freshly started processes (different hash seeds, TZ, cwd); distinct outputs per configuration must be 1 and every timestamp <= source date.",
@@ -46,7 +46,7 @@ CHECKS = {
     "C13": ("exploration", "runtime monitor: byte-level rpmvercmp port as reference + total-preorder matrix test (bounded-exhaustive + random)",
             "Every ordered pair of strings over a 12-symbol alphabet up to a bounded length and millions of random long pairs are compared with a port of rpm's C routine; the full matrix is tested to be a total preorder; EVR/NEVRA rules on enumerated tuples.",
             "port validated on upstream rpmvercmp.at vectors at every run"),
-    "C14": ("fault_enumeration", "scripted io::Write / io::BufRead fault injection at every byte offset + chunking families",
+    "C14": ("fault_enumeration", "scripted io::Write (incl. write_vectored) / io::BufRead fault injection at every byte offset (persistent and transient) + chunking families",
             "A scripted sink fails at every offset 0..=len, accepts partial buffers and injects Interrupted/zero-length writes; a scripted source chunks and truncates reads at every offset. Output must be the canonical bytes or a prefix; parse results must not depend on chunking. Complete over failure offsets for each package used.",
             "canonical bytes = write into a Vec; both release and verifdbg profiles"),
     "C15": ("exploration", "runtime monitor: tuple-as-model round trip (bounded-exhaustive + random) and panic hook",
@@ -62,7 +62,7 @@ CHECKS = {
             "All 65 536 mode words, all 2^32 i32 values and all constructor arguments are converted and compared with direct bit arithmetic (exhaustive).",
             "none beyond the POSIX mode masks"),
     "C19": ("exploration", "runtime monitor: independent grammar acceptor over bounded-exhaustive token strings + random text",
-            "Every string of up to 5 (quick) / 7 (thorough) tokens over the 13-token alphabet and random longer strings are judged by an independent acceptor; verbatim retention, FileOptions::caps error mapping and no-panic in both profiles.",
+            "Every string of up to 5 (quick) / 8 (thorough) tokens over the 13-token alphabet and random longer strings are judged by an independent acceptor; verbatim retention, FileOptions::caps error mapping and no-panic in both profiles.",
             "grammar model follows the statement; don't-care classes listed in DESIGN.md"),
     "C20": ("exploration", "runtime monitor: integer time arithmetic oracle over boundary windows, extremes, zones, random instants",
             "Every second in windows around 0, 2^31, 2^32 with sub-second offsets, extreme values, fixed-offset zones and random instants are converted and compared with integer arithmetic; ordering on sorted samples; file mtimes through the builder.",
